@@ -144,6 +144,8 @@ func runBarrier(jc *JobCtx, prop string, d barDriver, bound int) {
 		cfg.Malloc = ga.Malloc
 		cfg.Free = ga.Free
 		cfg.BarrierDestructor = func(ref unsafe.Pointer) {
+			// a real destructor synchronises (nitro's sends on a channel): the callback is a scheduling point
+			vrt.Fence()
 			now := vrt.Now()
 			fid := -1
 			for i, f := range st.flushes {
